@@ -345,8 +345,9 @@ class ExtraCoords(ExtraCoordsABC):
 
         Returns a new ExtraCoords object with modified lookup tables.
         """
-        dropped_tables = set()
-        new_lookup_tables = set()
+        # Lists, not sets: the order of the tables is the order of the world axes.
+        dropped_tables = []
+        new_lookup_tables = []
         ndims = max([lut[0] if isinstance(lut[0], Integral) else max(lut[0])
                      for lut in self._lookup_tables]) + 1
         # Determine how many dimensions will be dropped by slicing below each dimension.
@@ -361,7 +362,9 @@ class ExtraCoords(ExtraCoordsABC):
             n_dropped_dims = np.cumsum([isinstance(i, Integral) for i in item])
         for lut_axis, lut in self._lookup_tables:
             lut_axes = (lut_axis,) if not isinstance(lut_axis, tuple) else lut_axis
-            new_lut_axes = tuple(ax - n_dropped_dims[ax] for ax in lut_axes)
+            # Only the axes of the table that survive the slicing are renumbered and kept.
+            new_lut_axes = tuple(ax - n_dropped_dims[ax] for ax in lut_axes
+                                 if not isinstance(item[ax], Integral))
             lut_slice = tuple(item[i] for i in lut_axes)
             if isinstance(lut_slice, tuple) and len(lut_slice) == 1:
                 lut_slice = lut_slice[0]
@@ -369,12 +372,12 @@ class ExtraCoords(ExtraCoordsABC):
             sliced_lut = lut[lut_slice]
 
             if sliced_lut.is_scalar():
-                dropped_tables.add(sliced_lut)
+                dropped_tables.append(sliced_lut)
             else:
-                new_lookup_tables.add((new_lut_axes, sliced_lut))
+                new_lookup_tables.append((new_lut_axes, sliced_lut))
         new_extra_coords = type(self)()
-        new_extra_coords._lookup_tables = list(new_lookup_tables)
-        new_extra_coords._dropped_tables = list(dropped_tables)
+        new_extra_coords._lookup_tables = new_lookup_tables
+        new_extra_coords._dropped_tables = dropped_tables
         return new_extra_coords
 
     def _getitem_wcs(self, item):
